@@ -118,6 +118,10 @@ def _sf2(args):
     except Exception as e:
         import traceback
         logging.warn(e)
+        # release the other workers: they would otherwise wait on the barrier
+        # for this stripe forever
+        if barrier is not None:
+            barrier.abort()
         raise Exception("".join(traceback.format_exception(*sys.exc_info())))
 
 
